@@ -97,8 +97,21 @@ def gen_c11(rnd, sid, method):
     for i in range(1, n + 1):
         L.append("O wait %d" % i)
     L.append("O tk 1")
+    late_spawn = None
     if two:
-        L += ["S spawn 1", "T 1 iv_init", "O wait 4", "T 1 wait_spawn 4"]
+        L += ["S spawn 1", "T 1 iv_init", "O wait 4", "O wait 5", "O tk 7", "O tm 7"]
+        c = rnd.random()
+        if c < 0.35:
+            # thread 1 spawns a child that is gone at once, from inside its loop, while the
+            # main loop (which receives SIGCHLD) is waiting: the reaper races with the spawn
+            L += ["T 1 wait_spawn 4", "T 1 tk_reg 7", "R tk 7 0 1 forkexit 1", "R tk 7 0 1 wait_spawn 5"]
+            late_spawn = 0
+        elif c < 0.7:
+            # the same with the roles swapped: the main thread spawns from a timer
+            L += ["T 1 wait_spawn 4", "S tm_reg 7 1 0 1000", "R tm 7 0 1 forkexit 1", "R tm 7 0 1 wait_spawn 5"]
+            late_spawn = 1
+        else:
+            L += ["T 1 wait_spawn 4"]
         L.append("R wait 4 0 0 yield")
         if rnd.random() < 0.6:
             # a thread is busy in a callback when SIGCHLD (for a child of the other thread) is
@@ -146,7 +159,8 @@ def gen_c11(rnd, sid, method):
     extra = "pids=%s chldthr=%d" % (",".join(str(p) for p in ([101, 102, 103][:n] + ([104] if two else []) + [101, 102, 103])), 1 if two and rnd.random() < 0.5 else 0)
     if two:
         # the second thread spawns first or last depending on the schedule: keep its pid distinct
-        extra = "pids=%s chldthr=%d" % (",".join(str(p) for p in [101, 102, 103, 104, 105, 106]), rnd.choice([0, 1]))
+        extra = "pids=%s chldthr=%d" % (",".join(str(p) for p in [101, 102, 103, 104, 105, 106]),
+                                        late_spawn if late_spawn is not None else rnd.choice([0, 1]))
         L = [l.replace("child 104", "child 104") for l in L]
     return "\n".join([hdr(sid, rnd, method, extra)] + L + ["X"]) + "\n"
 
@@ -203,6 +217,14 @@ def run(pid, tier, seed, replay=None):
             n = 700 if tier == "quick" else 12000
             scripts = [GEN[pid](rnd, "%sr%d.%d" % (pid, seed, i), rnd.choice(["epoll", "epoll-timerfd", "poll", "ppoll"])) for i in range(n)]
         tfs = corerun.run_scripts(exe, scripts, sc, tag="run")
+        if not replay:
+            # a share of the programs also runs on the instrumented build, where the
+            # library's malloc'ed memory starts out as 0xCD garbage instead of zeroes
+            import rescheck
+            k = max(40, len(scripts) // 6)
+            extra = [rescheck.with_opts(s.replace("B " + pid + "r", "B " + pid + "m", 1), "memrec=1") for s in scripts[:k]]
+            tfs += corerun.run_scripts(corerun.build_core("rec"), extra, sc, tag="runrec")
+            scripts = scripts + extra
         idx = corerun.script_index(scripts)
         nreal = 0
         if pid == "C19" and not replay:
